@@ -327,6 +327,8 @@ pub enum Event {
     AdjustDebt { a: Aid, x: f64 },
     /// arm a trace fault: panic at the `at`-th FaultPoint trace of the run, `repeat` times
     ArmTraceFault { at: u64, repeat: u32 },
+    /// arm a destructor fault: the `nth` destructor run by a collection method from now on unwinds
+    ArmDropFault { nth: u32 },
     /// `root_set` is the id given to the hidden Gc object of the root's DynamicRootSet
     /// (`root_set + 1` to the shared object of its ZstCache)
     NewArena {
